@@ -443,7 +443,31 @@ def c01h(ctx):
     st_fp = b.assigns(lambda st: any(e.startswith("f:transitive_firewall_callees_fingerprint#") for e in st["lhs"][1]))
     hs = [s for s in b.calls_to(r"Engine<C>>::hash$|Engine::<C>::hash$") if "transitive_firewall_callees" in df.access_path(b, s.node["args"][1])]
     o.sites = len(st_tfc) + len(st_fp) + len(hs)
-    if len(st_tfc) != 1 or len(st_fp) != 1 or len(hs) != 1:
+    ctor = b.calls_to(r"database::NodeInfo::new$")
+    if not st_tfc and not st_fp and len(ctor) == 1:
+        # constructor form: the node info is rebuilt with NodeInfo::new(value fingerprint, firewall fingerprint, firewall set)
+        o.sites += 1
+        a = ctor[0].node["args"]
+        is_hash = lambda x: x.kind == "call" and re.search(r"::hash$", x.callee() or "")
+        fp_o = df.origins_of_operand(b, a[1])
+        hcalls = [x.site for x in fp_o if is_hash(x)]
+        if len(hcalls) != 1 or any(not is_hash(x) for x in fp_o if x.kind == "call"):
+            ctx.fail(o, ctor[0], "clean_query rebuilds the node info with a firewall-set fingerprint that is not the hash of the new firewall set (argument 2 of NodeInfo::new "
+                     "comes from %s): callers comparing firewall fingerprints see a change that did not happen, or miss one that did"
+                     % ", ".join(sorted((x.callee() or x.kind).rsplit("::", 1)[-1] for x in fp_o)))
+        else:
+            hashed = {x.key() for x in df.origins_of_operand(b, hcalls[0].node["args"][1]) if x.kind in ("param", "call")}
+            stored = {x.key() for x in df.origins_of_operand(b, a[2]) if x.kind in ("param", "call")}
+            if not (hashed & stored):
+                ctx.fail(o, ctor[0], "clean_query stores a firewall set together with the fingerprint of a different value")
+        vo = df.origins_of_operand(b, a[0])
+        if any(is_hash(x) for x in vo) or not any(x.kind == "call" and re.search(r"NodeInfo::value_fingerprint$", x.callee() or "") for x in vo):
+            ctx.fail(o, ctor[0], "clean_query rebuilds the node info with a VALUE fingerprint that is not the node's current one (argument 1 of NodeInfo::new comes from %s): a "
+                     "query verified clean gets a different stored value fingerprint although its value is unchanged, and every caller above it is re-executed without "
+                     "justification (or, with a stale one, not re-executed when it must be)" % ", ".join(sorted((x.callee() or x.kind).rsplit("::", 1)[-1] for x in vo)))
+        if not any(x.kind == "param" for x in df.origins_of_operand(b, a[2])):
+            ctx.fail(o, ctor[0], "the firewall set stored is not the `new_tfc` argument")
+    elif len(st_tfc) != 1 or len(st_fp) != 1 or len(hs) != 1:
         ctx.fail(o, Site(b, 0, 0), "anchors missing in clean_query (store tfc=%d, store fingerprint=%d, hash(tfc)=%d)" % (len(st_tfc), len(st_fp), len(hs)))
     else:
         if st_tfc[0].node["lhs"][0] != st_fp[0].node["lhs"][0]:
